@@ -53,9 +53,9 @@ def raising_iter(items: Sequence, k: int):
 
 
 # op kinds, simplest first
-K_X, K_CZ, K_M1, K_CC, K_PAR, K_TAG, K_M2, K_CNOT = range(8)
-KIND_WEIGHTS = [6, 3, 4, 4, 2, 2, 2, 2]
-KIND_NAMES = ["X", "CZ", "M", "CC", "PAR", "TAGGED", "M2", "CNOT"]
+K_X, K_CZ, K_M1, K_CC, K_PAR, K_TAG, K_M2, K_CNOT, K_CM, K_CO = range(10)
+KIND_WEIGHTS = [6, 3, 4, 4, 2, 2, 2, 2, 2, 2]
+KIND_NAMES = ["X", "CZ", "M", "CC", "PAR", "TAGGED", "M2", "CNOT", "CIRCUIT-OP-2Q", "CIRCUIT-OP"]
 
 MUTATORS = ["append", "insert", "iadd", "insert_into_range", "insert_at_frontier", "batch_insert",
             "batch_insert_into", "batch_remove", "batch_replace", "clear", "setitem_int",
@@ -113,6 +113,20 @@ class Reg:
         elif kind == K_CC:
             g = cirq.X(Q[qs[0]]).with_classical_controls(key)
             a = AOp(uid, qs[:1], ckeys=(key,), invertible=False)
+        elif kind == K_CM:
+            # (cirq refuses measure(...).with_classical_controls(...): "Cannot conditionally run
+            # operations with measurements", so the second both-key-sets operation is a two-qubit
+            # CircuitOperation: read qs[0] into `key`, flip qs[1] if the *other* key)
+            other = KEYS[1 - KEYS.index(key)]
+            g = cirq.CircuitOperation(cirq.FrozenCircuit(cirq.measure(Q[qs[0]], key=key),
+                                                         cirq.X(Q[qs[1]]).with_classical_controls(other)))
+            a = AOp(uid, qs[:2], mkeys=(key,), ckeys=(other,), invertible=False)
+        elif kind == K_CO:
+            # one operation wrapping "flip if <other>, then read into <key>": both key sets
+            other = KEYS[1 - KEYS.index(key)]
+            g = cirq.CircuitOperation(cirq.FrozenCircuit(cirq.X(Q[qs[0]]).with_classical_controls(other),
+                                                         cirq.measure(Q[qs[0]], key=key)))
+            a = AOp(uid, qs[:1], mkeys=(key,), ckeys=(other,), invertible=False)
         elif kind == K_PAR:
             g, a = (cirq.X ** sympy.Symbol(sym))(Q[qs[0]]), AOp(uid, qs[:1], params=(sym,))
         elif kind == K_TAG:
@@ -294,14 +308,14 @@ class Run:
         kind = t.weighted(KIND_WEIGHTS, "op-kind")
         if on is not None:
             if len(on) == 1:
-                kind = kind if kind in (K_X, K_M1, K_CC, K_PAR, K_TAG) else K_X
+                kind = kind if kind in (K_X, K_M1, K_CC, K_PAR, K_TAG, K_CO) else K_X
             else:
-                kind = kind if kind in (K_CZ, K_M2, K_CNOT) else K_CZ
+                kind = kind if kind in (K_CZ, K_M2, K_CNOT, K_CM) else K_CZ
             qs = on
         else:
             a = t.draw(NQ, "qubit")
-            qs = (a, (a + 1 + t.draw(NQ - 1, "qubit2")) % NQ) if kind in (K_CZ, K_M2, K_CNOT) else (a,)
-        key = KEYS[t.draw(2, "key")] if kind in (K_M1, K_M2, K_CC) else "a"
+            qs = (a, (a + 1 + t.draw(NQ - 1, "qubit2")) % NQ) if kind in (K_CZ, K_M2, K_CNOT, K_CM) else (a,)
+        key = KEYS[t.draw(2, "key")] if kind in (K_M1, K_M2, K_CC, K_CM, K_CO) else "a"
         sym = SYMS[t.draw(2, "sym")] if kind == K_PAR else "t"
         return self.reg.make(kind, tuple(qs), key, sym)
 
@@ -471,6 +485,8 @@ class Run:
             return "moment.measurement_key_objs"
         if cirq.control_keys(m) != cirq.control_keys(fm):
             return "moment.control_keys"
+        if m._measurement_key_objs_() != fm._measurement_key_objs_() or m._control_keys_() != fm._control_keys_():
+            return "moment.key_sets"
         if cirq.measurement_key_names(m) != cirq.measurement_key_names(fm):
             return "moment.measurement_key_names"
         if cirq.is_parameterized(m) != cirq.is_parameterized(fm) or cirq.parameter_names(m) != cirq.parameter_names(fm):
@@ -1361,7 +1377,10 @@ class Run:
         invertible = all(o is not None for m in inv for o in m)
         self.begin("pow", "bad-arg" if bad else "ok", t, 2 if bad else -1, invertible)
         if bad or not invertible:
-            status, _ = self.attempt(lambda: lv.c ** (2 if bad else -1), ("TypeError",))
+            # (a CircuitOperation holding a measurement answers ** -1 with ValueError rather than
+            # NotImplemented; that is the operation's business, not the circuit's)
+            status, _ = self.attempt(lambda: lv.c ** (2 if bad else -1),
+                                     ("TypeError",) if bad else ("TypeError", "ValueError"))
             if status == "raised":
                 if bad:
                     self.ctx.fault("bad-arg")
